@@ -70,6 +70,9 @@ pub struct Config {
     pub ghost_args: Vec<String>,
     /// R5 follow-up: type names whose lifetime parameters became unused (all borrowed strings mapped to `Str`)
     pub strip_lifetimes: Vec<String>,
+    /// R20: closure ordinals (source pre-order, counted before any other closure rewrite) that are the argument of
+    /// `Option::map` / `Option::unwrap_or_else`; the call is replaced by the `match` that defines it in core
+    pub opt_closures: BTreeSet<u64>,
 }
 
 fn strs(v: &Value) -> Vec<String> {
@@ -162,6 +165,9 @@ impl Config {
             for (k, v) in m {
                 c.let_types.push((k.clone(), v.as_str().unwrap_or("").to_string()));
             }
+        }
+        for k in item["opt_closures"].as_array().cloned().unwrap_or_default() {
+            c.opt_closures.insert(k.as_u64().ok_or("opt_closures: bad ordinal")?);
         }
         for k in item["any_to_loop"].as_array().cloned().unwrap_or_default() {
             c.any_to_loop.insert(k.as_u64().ok_or("any_to_loop: bad ordinal")?);
@@ -943,6 +949,66 @@ impl VisitMut for ShadowPass {
         if self.active && p.path.is_ident(&self.from) {
             p.path = syn::Ident::new(&self.to, Span::call_site()).into();
         }
+    }
+    fn visit_macro_mut(&mut self, _m: &mut syn::Macro) {}
+}
+
+// ------------------------------------------------------------------------------------------
+// R20 : `Option::map(closure)` / `Option::unwrap_or_else(closure)` -> the defining `match` (core::option)
+// ------------------------------------------------------------------------------------------
+
+struct OptPass<'a> {
+    cfg: &'a Config,
+    counts: &'a mut Counts,
+    seen: u64,
+    done: u64,
+    err: Option<String>,
+}
+
+impl<'a> VisitMut for OptPass<'a> {
+    fn visit_expr_mut(&mut self, e: &mut syn::Expr) {
+        if let syn::Expr::MethodCall(mc) = e {
+            if mc.args.len() == 1 {
+                if let Some(c) = closure_of(&mc.args[0]) {
+                    let m = mc.method.to_string();
+                    self.visit_expr_mut(&mut mc.receiver);
+                    let k = self.seen;
+                    self.seen += 1;
+                    let mut body = (*c.body).clone();
+                    self.visit_expr_mut(&mut body);
+                    if self.cfg.opt_closures.contains(&k) {
+                        if has_return(&c.body) {
+                            self.err = Some("unsupported construct: `return`/`?` inside an Option::map closure".into());
+                            return;
+                        }
+                        let recv = &mc.receiver;
+                        let new: syn::Expr = match (m.as_str(), c.inputs.len()) {
+                            ("map", 1) => {
+                                let pat = match &c.inputs[0] { syn::Pat::Type(pt) => (*pt.pat).clone(), p => p.clone() };
+                                syn::parse_quote!(match #recv { Some(#pat) => Some(#body), None => None })
+                            }
+                            ("unwrap_or_else", 0) => syn::parse_quote!(match #recv { Some(__v) => __v, None => #body }),
+                            _ => {
+                                self.err = Some(format!("bad recipe: opt_closures ordinal {} is the argument of `{}`", k, m));
+                                return;
+                            }
+                        };
+                        *e = new;
+                        self.done += 1;
+                        bump(self.counts, "R20.option_closure_to_match");
+                    } else if let syn::Expr::Closure(c2) = &mut mc.args[0] {
+                        c2.body = Box::new(body);
+                    }
+                    return;
+                }
+            }
+        }
+        if let syn::Expr::Closure(c) = e {
+            self.seen += 1;
+            self.visit_expr_mut(&mut c.body);
+            return;
+        }
+        visit_mut::visit_expr_mut(self, e);
     }
     fn visit_macro_mut(&mut self, _m: &mut syn::Macro) {}
 }
@@ -1745,6 +1811,13 @@ impl<'a> VisitMut for AnchorPass<'a> {
                 }
             }
             let call = self.stmt_call(&s);
+            if let Some(c) = &call {
+                let n = *self.seen_calls.get(c).unwrap_or(&0);
+                if self.cfg.anchors.iter().any(|(k, nm, m)| k == "before_call" && nm == c && *m == n) {
+                    out.push(anchor_stmt("before_call", c, n));
+                    self.placed.push(format!("before_call_{}_{}", c, n));
+                }
+            }
             self.visit_stmt_mut(&mut s);
             let is_last_expr = idx + 1 == n_stmts && matches!(&s, syn::Stmt::Expr(_, None));
             out.push(s);
@@ -2002,6 +2075,17 @@ pub fn apply_to_fn(
         let mut p = GhostArgPass { cfg, counts, seen: BTreeMap::new() };
         p.visit_block_mut(&mut f.block);
     }
+    // R20
+    if !cfg.opt_closures.is_empty() {
+        let mut p = OptPass { cfg, counts, seen: 0, done: 0, err: None };
+        p.visit_block_mut(&mut f.block);
+        if let Some(e) = p.err {
+            return Err(e);
+        }
+        if p.done as usize != cfg.opt_closures.len() {
+            return Err("lost anchor: an opt_closures ordinal names no closure".into());
+        }
+    }
     // loops / closures
     let mut info = FnInfo::default();
     {
@@ -2056,6 +2140,7 @@ pub fn apply_to_fn(
         for (k, n, m) in &cfg.anchors {
             let key = match k.as_str() {
                 "after_call" => format!("after_call_{}_{}", n, m),
+                "before_call" => format!("before_call_{}_{}", n, m),
                 "before_return" => format!("before_return_r_{}", m),
                 "iflet_head" => format!("iflet_head_b_{}", m),
                 "entry" => continue,
